@@ -3,6 +3,7 @@ model level). Model: lean/Fv/Chan/Topic.lean; theorems: Fv.Props.C08; ties: T2 d
 fibre::spmc::topic handles (sync + async, int + String keys) against the Lean engine `fvdrv_topic`,
 harness-side property monitors on every history, and a real-thread stress run judged by monitors only."""
 import json, os
+import vlib
 from vlib import VERIF
 
 def _names(f):
@@ -30,6 +31,11 @@ def run(ctx):
         "receiver_count is a 64-bit usize with wrapping fetch_add/fetch_sub",
         "message payloads are opaque (never inspected by the code); topics and values are small integers (String keys are formatted integers)",
     ]
+    # oracle sanity: the monitors must flag hand-made histories that violate each clause
+    rc, out, err = vlib.sh([h, "selftest"], timeout=60)
+    if rc != 0:
+        raise RuntimeError("topich selftest failed (monitors no longer detect synthetic violations):\n" + out[-2000:] + err[-500:])
+    ctx.notes.append("monitor selftest: %d synthetic histories judged correctly" % out.count(": ok"))
     if ctx.replay:
         ctx.tie("replay", [h, "run", ctx.replay, "--prop", "C08"], [drv]); return
     ctx.tie("known-findings", [h, "run", os.path.join(VERIF, "findings", "C08_topic.case")], [drv])
